@@ -64,8 +64,8 @@ def ipow_product(g1,g2):
     else:
         L1, L2 = g1.shape[0], g2.shape[0]
     N = g1.shape[-1]//2 # explicit width: view(..., -1) is ambiguous for an empty polynomial
-    g1x, g1z = g1[...,::2].repeat(1, L2).view(L1*L2, N), g1[...,1::2].repeat(1, L2).view(L1*L2, N)
-    g2x, g2z = g2[...,::2].repeat(L1, 1).view(L1*L2, N), g2[...,1::2].repeat(L1, 1).view(L1*L2, N)
+    g1x, g1z = g1[...,::2].repeat(1, L2).reshape(L1*L2, N), g1[...,1::2].repeat(1, L2).reshape(L1*L2, N)
+    g2x, g2z = g2[...,::2].repeat(L1, 1).reshape(L1*L2, N), g2[...,1::2].repeat(L1, 1).reshape(L1*L2, N)
     gx = g1x + g2x
     gz = g1z + g2z
     return torch.sum(g1z * g2x - g1x * g2z + 2*(torch.div(gx, 2, rounding_mode='floor') * gz + gx * torch.div(gz, 2, rounding_mode='floor')), axis=-1) % 4
@@ -104,9 +104,9 @@ def batch_dot(gs1, ps1, cs1, gs2, ps2, cs2):
     gs: int (L1*L2,2*N) - Pauli strings in the second polynomial.
     ps: int (L1*L2) - phase indicators in the second polynomial.
     cs: complex (L1*L2) - coefficients in the second polynomial.'''
-    gs = ((gs1.unsqueeze(1) + gs2.unsqueeze(0)) % 2).view(-1, gs1.shape[1])
-    ps = ((ps1.unsqueeze(1) + ps2.unsqueeze(0)).view(-1,) + ipow_product(gs1, gs2)) % 4
-    cs = (cs1.unsqueeze(1)*cs2.unsqueeze(0)).view(-1,)
+    gs = ((gs1.unsqueeze(1) + gs2.unsqueeze(0)) % 2).reshape(-1, gs1.shape[1])
+    ps = ((ps1.unsqueeze(1) + ps2.unsqueeze(0)).reshape(-1,) + ipow_product(gs1, gs2)) % 4
+    cs = (cs1.unsqueeze(1)*cs2.unsqueeze(0)).reshape(-1,)
     return gs, ps, cs
 
 
